@@ -9,15 +9,16 @@
 package main
 
 import (
-	"time"
 	"bytes"
 	"encoding/json"
 	"fmt"
 	"os"
 	"reflect"
+	"regexp"
 	"sort"
 	"strings"
 	"sync"
+	"time"
 	"unsafe"
 
 	"anndbverif/lib/ev"
@@ -38,7 +39,7 @@ type op struct {
 	Term  uint64 `json:"term,omitempty"`
 	HS    bool   `json:"hs,omitempty"` // save a hard state together with the entries
 	Index uint64 `json:"index,omitempty"`
-	Tail  int    `json:"tail,omitempty"` // snapshot install carries this many entries after it
+	Tail  int    `json:"tail,omitempty"`  // snapshot install carries this many entries after it
 	Reuse bool   `json:"reuse,omitempty"` // delete: keep using the same store object (what partition.unloadRaft/loadRaft does)
 }
 
@@ -162,6 +163,7 @@ func (w *world_) apply(o op) (key, desc string) {
 			return "save-error", fmt.Sprintf("%v: %v", o, err)
 		}
 		g.ref.SetHardState(hs)
+		g.warm = true // durable state changed: a reopen is a new state
 	case "snap":
 		snap := raftpb.Snapshot{Data: []byte(fmt.Sprintf("recv%d", o.Index)), Metadata: raftpb.SnapshotMetadata{Index: o.Index, Term: o.Term, ConfState: confState}}
 		var es []raftpb.Entry
@@ -421,6 +423,9 @@ func (w *world_) enabled(multi bool) []op {
 		}
 		if last >= first {
 			out = append(out, op{G: gi, Kind: "hs", Term: termOf(last), Index: last})
+		} else if snap.Metadata.Index == 0 {
+			// a store that has no entry yet: raft saves term and vote (a vote granted, a term learnt) before the first append
+			out = append(out, op{G: gi, Kind: "hs", Term: 1, Index: 0})
 		}
 		// received snapshots: newer than the current one; either beyond the log or on a
 		// conflicting local entry (matching-term snapshots are never handed to storage by raft)
@@ -513,7 +518,15 @@ func main() {
 		dbs = append(dbs, world.MemDB())
 	}
 	var mu sync.Mutex
+	// borrowed phase (ev.RunPart): the borrowing check may select phases by name
+	var onlyPhase *regexp.Regexp
+	if rx := os.Getenv("VERIF_PART_PHASES"); rx != "" && os.Getenv("VERIF_AS") != "" {
+		onlyPhase = regexp.MustCompile(rx)
+	}
 	for _, ph := range phases {
+		if onlyPhase != nil && !onlyPhase.MatchString(ph.name) {
+			continue
+		}
 		seen := map[string]bool{}
 		w0, k, d := build(db, ph.groups, nil)
 		if k != "" {
@@ -597,6 +610,10 @@ func main() {
 		states += phStates
 		transitions += phTrans
 	}
+	diskEvals := 0
+	if onlyPhase == nil || onlyPhase.MatchString("single-group") {
+		diskEvals = onDiskLargeEntries(run)
+	}
 	run.Assumptions = []string{
 		"alphabet = calls raft may legally issue: contiguous batches starting in [first,last+1] with non-decreasing terms, overwrites only as real conflicts, received snapshots newer than the current one and never on a matching entry, local snapshots at indices of the log; indices <= 7, terms <= 3",
 		"reference = etcd raft.MemoryStorage (Append / SetHardState skipped for empty state / ApplySnapshot then Append / CreateSnapshot+Compact)",
@@ -610,6 +627,7 @@ func main() {
 		"distinct_nontrivial":           states,
 		"rule":                          "BFS over legal Storage call sequences on the real badgerWAL; after every call every live store of every group answers FirstIndex, LastIndex, Term(first-2..last+2), Entries(all lo<hi, 4 size limits), Snapshot, InitialState exactly as its own MemoryStorage; distinct = canonical (raw DB keys+values of the group, private cache contents)",
 		"per_phase":                     perPhase,
+		"on_disk_large_entry_queries":   diskEvals,
 		"outcome_classes":               outcomes,
 		"samples":                       samples.List(),
 		"exhaustive":                    complete,
@@ -617,7 +635,113 @@ func main() {
 	})
 }
 
+// onDiskLargeEntries is a directed phase on a database opened the way the server opens it (on disk, LSM-only options:
+// values above 1 MiB go to the value log, where Badger's size estimate of a value is no longer its length): four
+// entries around that threshold, every Entries(lo,hi,max) with max on / just around every cumulative size, warm and
+// after a reopen of the store object; then a conflicting overwrite and a compaction. Reference as everywhere.
+func onDiskLargeEntries(run *ev.Run) int {
+	dir, err := os.MkdirTemp(os.Getenv("VERIF_WORK"), "c06disk")
+	if err != nil {
+		ev.Tool("%v", err)
+	}
+	defer os.RemoveAll(dir)
+	db, err := badger.Open(badger.LSMOnlyOptions(dir).WithLogger(nil))
+	if err != nil {
+		ev.Tool("on-disk badger: %v", err)
+	}
+	defer db.Close()
+	gid := world.ID(0xd15c, 0x1122334455667788)
+	w := wal.NewBadgerWAL(db, gid)
+	ref := etcdRaft.NewMemoryStorage()
+	big := func(i, t uint64, n int) raftpb.Entry {
+		return raftpb.Entry{Index: i, Term: t, Type: raftpb.EntryNormal, Data: bytes.Repeat([]byte{byte('a' + i)}, n)}
+	}
+	evals := 0
+	fail := func(key, desc string) int {
+		run.Violation(key+":on-disk-large-entries", desc, map[string]interface{}{"directed": "on-disk-large-entries"})
+		return evals
+	}
+	compare := func(when string) (string, string) {
+		rf, _ := ref.FirstIndex()
+		rl, _ := ref.LastIndex()
+		var cum []uint64
+		for a := rf; a <= rl; a++ {
+			es, _ := ref.Entries(a, rl+1, ^uint64(0))
+			var c uint64
+			for _, e := range es {
+				c += uint64(e.Size())
+				cum = append(cum, c)
+			}
+		}
+		for a := rf; a <= rl; a++ {
+			for b := a + 1; b <= rl+1; b++ {
+				for _, c := range cum {
+					for _, d := range []int64{-2, -1, 0, 1, 2, 3, 8} {
+						max := uint64(int64(c) + d)
+						es, err := w.Entries(a, b, max)
+						res, rerr := ref.Entries(a, b, max)
+						evals++
+						if err != rerr {
+							return "entries-error", fmt.Sprintf("%s: Entries(%d,%d,%d) error %v reference %v", when, a, b, max, errStr(err), errStr(rerr))
+						}
+						if err == nil && !sameEntries(es, res) {
+							return "entries", fmt.Sprintf("%s: Entries(%d,%d,%d) returned %d entries, reference %d", when, a, b, max, len(es), len(res))
+						}
+					}
+				}
+			}
+		}
+		f, _ := w.FirstIndex()
+		l, _ := w.LastIndex()
+		if f != rf || l != rl {
+			return "firstindex", fmt.Sprintf("%s: first/last %d/%d reference %d/%d", when, f, l, rf, rl)
+		}
+		return "", ""
+	}
+	step := func(when string, es []raftpb.Entry) (string, string) {
+		if err := w.Save(raftpb.HardState{Term: es[0].Term, Vote: 1, Commit: es[0].Index - 1}, es, raftpb.Snapshot{}); err != nil {
+			return "save-error", fmt.Sprintf("%s: %v", when, err)
+		}
+		ref.Append(es)
+		if k, d := compare(when); k != "" {
+			return k, d
+		}
+		w = wal.NewBadgerWAL(db, gid) // cold cache
+		return compare(when + ", store reopened")
+	}
+	const mib = 1 << 20
+	if k, d := step("four entries of 0.9 / 1.0+ / 1.1 / 1.3 MiB", []raftpb.Entry{big(1, 1, mib*9/10), big(2, 1, mib+5), big(3, 1, mib*11/10), big(4, 1, mib*13/10)}); k != "" {
+		return fail(k, d)
+	}
+	if k, d := step("conflicting overwrite of 3..4 by one 1.2 MiB entry", []raftpb.Entry{big(3, 2, mib*12/10)}); k != "" {
+		return fail(k, d)
+	}
+	if _, err := w.CreateSnapshot(2, &confState, []byte("local2")); err != nil {
+		return fail("create-snapshot-error", err.Error())
+	}
+	ref.CreateSnapshot(2, &confState, []byte("local2"))
+	ref.Compact(2)
+	if k, d := compare("after CreateSnapshot(2)"); k != "" {
+		return fail(k, d)
+	}
+	w = wal.NewBadgerWAL(db, gid)
+	if k, d := compare("after CreateSnapshot(2), store reopened"); k != "" {
+		return fail(k, d)
+	}
+	return evals
+}
+
 func replay(db *badger.DB, path string) {
+	if b, err := os.ReadFile(path); err == nil && bytes.Contains(b, []byte("on-disk-large-entries")) {
+		run := ev.Start("C06", "model_checking")
+		onDiskLargeEntries(run)
+		if run.NewViolations() > 0 {
+			fmt.Printf("VIOLATION property=%s replay=%s\n  on-disk-large-entries\n", ev.As("C06"), path)
+			os.Exit(1)
+		}
+		fmt.Println("replay: property held")
+		return
+	}
 	var f struct {
 		Replay struct {
 			Groups int  `json:"groups"`
@@ -632,8 +756,8 @@ func replay(db *badger.DB, path string) {
 		ev.Tool("%v", err)
 	}
 	_, k, d := build(db, f.Replay.Groups, f.Replay.Ops)
-	if k != "" {
-		fmt.Printf("VIOLATION property=C06 replay=%s\n  %s: %s\n", path, k, d)
+	if k != "" && ev.Counts(k) {
+		fmt.Printf("VIOLATION property=%s replay=%s\n  %s: %s\n", ev.As("C06"), path, k, d)
 		os.Exit(1)
 	}
 	fmt.Println("replay: property held")
